@@ -30,17 +30,21 @@ def collect(ctx):
         rng.shuffle(s)
     n = 500 if ctx.quick else 6000
     emb, est, egen = rpcpipe.gen_embargo(ctx, sd, 3 if ctx.quick else 4, 5 if ctx.quick else 7)
-    scripts = emb + s1[:n] + s2[:n] + s3[:n // 2] + s4[:n // 2]
+    win, wst = rpcpipe.gen_windows(ctx, sd)
+    est += wst
+    scripts = emb + win + s1[:n] + s2[:n] + s3[:n // 2] + s4[:n // 2]
     # the same scripts with an answer queue of one entry: the second call pipelined on an unreturned answer waits until the queue drains
     POLICY = {"a": "policy", "q": -1, "on": -1, "exp": -1, "n": 0, "tag": -1, "kind": "", "rel": False, "h": "", "cap": -1, "k": 1}
     tight = [x for x in s1 if sum(1 for a in x if a["a"] == "p-call" and a["on"] >= 2) >= 2]
     scripts += [[POLICY] + x for x in tight[:n // 3]]
     if os.environ.get("VERIF_RPC_ONLY") == "embargo":      # development aid
         scripts = emb
+    if os.environ.get("VERIF_RPC_ONLY") == "window":
+        scripts = win
     if os.environ.get("VERIF_RPC_ONLY") == "wire":
         scripts = emb[:2]
-    ctx.log("RpcEnv: %d + %d + %d + %d scripts, %d chosen; RpcEmbargo: %d scripts (%d states, design invariants hold, control violates InOrder)"
-            % (len(s1), len(s2), len(s3), len(s4), len(scripts) - len(emb), len(emb), est))
+    ctx.log("RpcEnv: %d + %d + %d + %d scripts, %d chosen; RpcEmbargo: %d scripts (%d states, design invariants hold, control violates InOrder); RpcWindow: %d scripts"
+            % (len(s1), len(s2), len(s3), len(s4), len(scripts) - len(emb) - len(win), len(emb), est, len(win)))
     drv = gobuild.build(ctx, "rpcdrv")
     tf = os.path.join(sd, "rpctrace.ndjson")
     found, summ = rpcpipe.run_scripts(ctx, drv, scripts, tf)
@@ -59,6 +63,14 @@ def report(ctx, res, mine, label):
                           "the process died (%s) in %s while running script %s" % (m["head"], m["frame"], json.dumps([rpcpipe.brief(a) for a in m["script"]])), m)
     other = 0
     for key, off, ex, pos in res["rej"]:
+        race = reuse_race(ex)
+        if race:
+            # root cause known (D27): judged under C06 whatever event the trace specification stumbled over first
+            if label == "C07":
+                ctx.violation(race, "execution %s: the peer finished answer and reused its id after the Return was on the wire; the connection "
+                              "aborted ('answer ID reused'): trace=%s" % (ex[0].get("h"), json.dumps([rpcpipe.brief(e) for e in ex])[:3000]),
+                              {"trace": ex, "rejected_at": pos})
+            continue
         if mine(key):
             ctx.violation("trace:%s:%s" % (key, off.get("kind", "")),
                           "execution %s is not a behaviour of RpcTrace: first unexplained event #%d %s; trace=%s" % (
@@ -96,6 +108,30 @@ def wire_phase(ctx, res, mine):
 
 # wire-phase findings about reference counting belong to C07, everything else to C06
 WIRE_C07 = ("wire:send:release", "stress:capabilities-not-shut-down")
+
+
+def reuse_race(ex):
+    """The execution shows the connection aborting with 'answer ID n reused' although it had put the Return for n on the wire and
+    received the Finish for n before the peer reused n (known finding D27)."""
+    import re
+    for i, e in enumerate(ex):
+        if e["ev"] != "reported":
+            continue
+        m = re.search(r"answer ID (\d+) reused", e.get("h", ""))
+        if not m:
+            continue
+        n = int(m.group(1))
+        opens = [j for j in range(i) if ex[j]["ev"] == "msg" and ex[j]["dir"] == "recv" and ex[j]["m"] in ("call", "bootstrap") and ex[j]["q"] == n]
+        if len(opens) < 2:
+            continue
+        first, second = opens[-2], opens[-1]
+        ret = any(ex[j]["ev"] == "msg" and ex[j]["dir"] == "send" and ex[j]["m"] == "return" and ex[j]["q"] == n for j in range(first, second))
+        fin = any(ex[j]["ev"] == "msg" and ex[j]["dir"] == "recv" and ex[j]["m"] == "finish" and ex[j]["q"] == n for j in range(first, second))
+        # ... and the reuse arrived while that Return was still inside the transport's send (between "held" and "released")
+        held = [j for j in range(first, second) if ex[j]["ev"] == "held" and ex[j]["m"] == "return" and ex[j]["q"] == n]
+        if ret and fin and held and not any(ex[j]["ev"] == "released" for j in range(held[-1], second)):
+            return "race:answer-id-reused-before-return-bookkeeping"
+    return None
 
 
 def run(ctx):
